@@ -52,9 +52,9 @@ def main(argv):
             # the two Shift-JIS premises of the theorems against encoding_rs, over all of Unicode (also writes the repertoire)
             lines += run_harness(v, ['sjis'], seed)
             if tier == 'quick':
-                lines += run_harness(v, ['args', 260], seed) + run_harness(v, ['meta', 240], seed) + run_harness(v, ['lit', 300], seed)
+                lines += run_harness(v, ['args', 260], seed) + run_harness(v, ['meta', 270], seed) + run_harness(v, ['lit', 300], seed)
             else:
-                lines += run_harness(v, ['args', 2000, 'all'], seed) + run_harness(v, ['meta', 2000], seed) + run_harness(v, ['lit', 3000], seed)
+                lines += run_harness(v, ['args', 2000, 'all'], seed) + run_harness(v, ['meta', 2250], seed) + run_harness(v, ['lit', 3000], seed)
         for l in lines:
             parts = l.split('\t')
             if parts[0] == 'ORACLE-FAIL': oracle_fail.append(parts[1:])
@@ -107,8 +107,9 @@ def main(argv):
                 'every size spec (bs, len, len+nulless, Pascal) x mask (none / random / equal to a byte of the text) x furibug, strings drawn from the '
                 'measured repertoire in order (thorough: until every character was used) and from trail-byte-0x5C/0x7C specials, lengths 0..300 around '
                 'block and buffer boundaries, scripts of 2-4 consecutive furigana strings, compiled and decompiled in-process (ANM th12, MSG th12) and '
-                'compared with Model string_field/decode_string through Corr.C12; meta: ANM entry paths (block 16) and STD stage names (128 bytes) '
-                'written to and read from real files; lit: strings through fmt.rs Format for LitString and the parser. distinct = distinct case terms',
+                'compared with Model string_field/decode_string through Corr.C12; meta: every string slot of the file formats -- ANM path (th12) and path_2 (th06 header), STD stage name / 4 BGM names / 4 BGM '
+                'paths (th08) and anm_path (th12), mission.msg text lines under their cipher (th095), stack-ECL anim and ecli lists (th10) -- with '
+                'lengths around every block / buffer boundary, written to and read from real files; lit: strings through fmt.rs Format for LitString and the parser. distinct = distinct case terms',
         'traces_validated_against_impl': len(cases),
         'case_kinds': hist, 'generator_stats': stats, 'sjis_sweep': sjis_line,
         'oracle_failures_by_class': {c: len(fs) for c, fs in seen.items()},
